@@ -103,7 +103,29 @@ def _jack(x):
     return [tot / n] + [(tot - v) / (n - 1) for v in x]
 
 
-def h_jack_matmul(cx, n, nf, cfg):
+def _jack_of(s, cfg):
+    """jackknife samples of an observable as export_jackknife defines them: slot 0 the central value, slot k = (N value - x_k) / (N - 1) with
+    x_k = fluctuation + replica mean (for a derived observable the central value is not the mean of the x_k)"""
+    N = len(cfg)
+    return [s.value] + [(N * s.value - (s.deltas['e|r1'][c] + s.r_values['e|r1'])) / (N - 1) for c in cfg]
+
+
+def _entry(cx, tag, lay, derived):
+    if derived == 'jack':
+        # an observable imported from jackknife samples whose central value (slot 0) is not the mean of its per-configuration data
+        import pyerrors as pe
+        (name, cfg), = lay.items()
+        jk = np.array([cx.real('%s_j%d' % (tag, k)) for k in range(len(cfg) + 1)], dtype=object if cx.mode == 'sym' else float)
+        o = pe.import_jackknife(jk, name, [list(cfg)])
+        return o, lib.spec_of_obs(o)
+    o, s = lib.mk_obs(cx, tag, lay)
+    if derived:
+        o = o * o + 0.5 * o
+        s = lib.derived_spec(lambda x: x[0] * x[0] + 0.5 * x[0], [s])
+    return o, s
+
+
+def h_jack_matmul(cx, n, nf, cfg, derived=False):
     """jackknife product: exact central value; fluctuations = those of the pseudo-values of the product of the
     leave-one-out means (the jackknife-linearised product)"""
     import pyerrors as pe
@@ -115,14 +137,14 @@ def h_jack_matmul(cx, n, nf, cfg):
         Rw = {}
         for i in range(n):
             for j in range(n):
-                o, s = lib.mk_obs(cx, '%s%d%d' % ('ABC'[f], i, j), lay)
+                o, s = _entry(cx, '%s%d%d' % ('ABC'[f], i, j), lay, derived)
                 M[i, j] = o
-                Rw[(i, j)] = [s.deltas['e|r1'][c] + s.r_values['e|r1'] for c in cfg]
+                Rw[(i, j)] = _jack_of(s, cfg)
         mats.append(M)
         raw.append(Rw)
     R = pe.linalg.jack_matmul(*mats)
     N = len(cfg)
-    J = [{k: _jack(v) for k, v in Rw.items()} for Rw in raw]
+    J = [dict(Rw) for Rw in raw]
     # product sample by sample
     cur = J[0]
     for f in range(1, nf):
@@ -234,7 +256,7 @@ def _einsum_explicit(subs, ops):
     return res
 
 
-def h_einsum(cx, subs, shapes, cfg):
+def h_einsum(cx, subs, shapes, cfg, derived=False):
     """linalg.einsum (jackknife based): exact central value, fluctuations = those of the pseudo-values of the sample-wise Einstein sum.
     numpy.einsum itself runs on the object arrays of jackknife samples; only its result is given the float dtype the wrapper dispatches on."""
     import pyerrors as pe
@@ -251,9 +273,9 @@ def h_einsum(cx, subs, shapes, cfg):
         M = np.empty(tuple(shp), dtype=object)
         Jf = np.empty(tuple(shp), dtype=object)
         for idx in np.ndindex(*shp):
-            o, s = lib.mk_obs(cx, '%s%s' % ('ABC'[f], ''.join(map(str, idx))), lay)
+            o, s = _entry(cx, '%s%s' % ('ABC'[f], ''.join(map(str, idx))), lay, derived)
             M[idx] = o
-            Jf[idx] = _jack([s.deltas['e|r1'][c] + s.r_values['e|r1'] for c in cfg])
+            Jf[idx] = _jack_of(s, cfg)
         mats.append(M)
         J.append(Jf)
     R = pe.linalg.einsum(subs, *mats)
@@ -524,6 +546,10 @@ def jobs(tier, seed):
     add('einsum', subs='ij,jk->ik', shapes=[[2, 2], [2, 2]], cfg=[1, 2, 3, 4, 5])
     add('einsum', subs='ij,kj->ik', shapes=[[2, 3], [1, 3]], cfg=[2, 4, 6, 8, 10])
     add('einsum', subs='ij,ji->', shapes=[[2, 2], [2, 2]], cfg=[1, 2, 3, 5, 6])
+    add('einsum', subs='ij,jk->ik', shapes=[[1, 2], [2, 1]], cfg=[1, 2, 3, 4, 5], derived=True)      # entries that are non-linear functions of their data: central value != mean of the samples
+    add('jack_matmul', n=1, nf=2, cfg=[1, 2, 3, 4, 5], derived=True)
+    add('einsum', subs='ij,jk->ik', shapes=[[1, 2], [2, 1]], cfg=[1, 2, 3, 4, 5], derived='jack')
+    add('jack_matmul', n=1, nf=2, cfg=[1, 2, 3, 4, 5], derived='jack')
     add('einsum', subs='ij,jk,kl->il', shapes=[[1, 2], [2, 2], [2, 1]], cfg=[1, 2, 3, 4, 5])
     add('det', n=1, lays=[E])
     add('det', n=2, lays=[E, Ei, F_])
